@@ -4,6 +4,55 @@ from pyvc.api import *
 from pyvc.specs import spec
 from pyvc.values import SBool, SStr, SInt, StrSort, IntSort, BoolSort, HJoin
 
+import re as _re
+
+# ---- native reference implementations (used only by the replay harness) -----------------
+_UNIT = _re.compile(r'(?P<pair>\\u[dD][89abAB][0-9a-fA-F]{2}\\u[dD][c-fC-F][0-9a-fA-F]{2})|(?P<u4>\\u[0-9a-fA-F]{4})|(?P<short>\\["$\\/bfnrt])|(?P<plain>[^\\])', _re.DOTALL)
+_SHORT_PY = {'"': '"', "$": "$", "\\": "\\", "/": "/", "b": "\x08", "f": "\x0c", "n": "\n", "r": "\r", "t": "\t"}
+
+
+def _dec_py(s):
+    out, i = [], 0
+    while i < len(s):
+        m = _UNIT.match(s, i)
+        if not m:
+            return None
+        g = m.lastgroup
+        t = m.group()
+        if g == "plain":
+            if ord(t) < 8:
+                return None
+            out.append(t)
+        elif g == "short":
+            out.append(_SHORT_PY[t[1]])
+        elif g == "u4":
+            cp = int(t[2:], 16)
+            if 0xD800 <= cp <= 0xDFFF or cp < 8:
+                return None
+            out.append(chr(cp))
+        else:
+            hi, lo = int(t[2:6], 16), int(t[8:12], 16)
+            out.append(chr(0x10000 + (hi - 0xD800) * 1024 + (lo - 0xDC00)))
+        i = m.end()
+    return "".join(out)
+
+
+def _is_unit_at_py(v, a, b, c):
+    m = _UNIT.fullmatch(v[a:b]) if 0 <= a < b <= len(v) else None
+    return bool(m) and _dec_py(v[a:b]) == c
+
+
+_PRE_UNITS = _re.compile(r"(?:[^\\]|\\.)*", _re.DOTALL)
+
+
+def _scannable_py(v, i):
+    return bool(_PRE_UNITS.fullmatch(v[i:]))
+
+
+def _all_hex_py(s):
+    return len(s) >= 4 and all(ch in "0123456789abcdefABCDEF" for ch in s[:4])
+
+
 BS, U = 92, 117
 SHORT = {34: 34, 36: 36, 92: 92, 47: 47, 98: 8, 102: 12, 110: 10, 114: 13, 116: 9}  # " $ \\ / b f n r t
 
@@ -45,7 +94,7 @@ def is_unit_at(v, a, b, c):
     return z3.And(inb, z3.Or(plain, short, u4, pair))
 
 
-@spec("is_unit_at", None)
+@spec("is_unit_at", _is_unit_at_py)
 def _is_unit_at(ex, v, a, b, c):
     return SBool(is_unit_at(ex.to_str_term(v), ex.to_int_term(a), ex.to_int_term(b), ex.to_str_term(c)))
 
@@ -54,12 +103,12 @@ def _prefix(v, k):
     return z3.SubSeq(v, 0, k)
 
 
-@spec("dec", None)
+@spec("dec", _dec_py)
 def _dec(ex, s):
     return SStr(Dec(ex.to_str_term(s)))
 
 
-@spec("dec_prefix", None)
+@spec("dec_prefix", lambda v, k: _dec_py(v[:k]))
 def _dec_prefix(ex, v, k):
     """Dec(v[:k]) for 0 <= k <= len(v)."""
     return SStr(Dec(_prefix(ex.to_str_term(v), ex.to_int_term(k))))
@@ -83,7 +132,7 @@ def _dec_step(ex, v, a, b, c):
     return SBool(z3.Implies(is_unit_at(v, a, b, c), Dec(_prefix(v, b)) == z3.Concat(Dec(_prefix(v, a)), c)))
 
 
-@spec("scannable", None)
+@spec("scannable", lambda v, i: _scannable_py(v, i))
 def _scannable(ex, v, i):
     return SBool(WF(ex.to_str_term(v), ex.to_int_term(i)))
 
@@ -107,27 +156,46 @@ def _joined(ex, l):
     return l.acc if isinstance(l, HJoin) else l
 
 
-@spec("hexval", None)
+@spec("hexval", lambda s: int(s[:4], 16))
 def _hexval(ex, s):
     return SInt(hexval4(ex.to_str_term(s)))
 
 
-@spec("hexval_at", None)
+@spec("hexval_at", lambda v, off: int(v[off:off+4], 16))
 def _hexval_at(ex, v, off):
     return SInt(hexval4(ex.to_str_term(v), ex.to_int_term(off)))
 
 
-@spec("all_hex_at", None)
+@spec("all_hex_at", lambda v, off: _all_hex_py(v[off:off+4]))
 def _all_hex_at(ex, v, off):
     return SBool(all_hex4(ex.to_str_term(v), ex.to_int_term(off)))
 
 
-@spec("all_hex", None)
+@spec("all_hex", _all_hex_py)
 def _all_hex(ex, s):
     return SBool(all_hex4(ex.to_str_term(s)))
 
 
 TOKEN = Rec("Token", _module="liquid2.token", index=Int, value=Str)
+
+
+def _mk_build(qual, names):
+    def build(model, case, fm):
+        import liquid2.unescape as U_
+        from liquid2.token import Token, TokenType
+
+        tok = Token(type_=TokenType.DOUBLE_QUOTE_STRING, value="", index=0, source="")
+        env = {"token": tok}
+        args = []
+        for n in names:
+            kind = case[n].label
+            v = fm(model.get(n), 0 if kind == "int" else "")
+            env[n] = v
+            args.append(v)
+        args.append(tok)
+        return getattr(U_, qual), args, {}, env
+
+    return build
 
 contract("liquid2.unescape:_is_high_surrogate", props=["C20"], params={"code_point": Int},
          post=["result == (0xD800 <= code_point and code_point <= 0xDBFF)"], raises={}, returns=Bool, always_inline=True)
@@ -142,6 +210,7 @@ contract(
     post=["result == chr(code_point)", "code_point >= 8"],
     raises={"LiquidSyntaxError": "code_point < 8"},
     returns=Str,
+    build=_mk_build("_string_from_code_point", ["code_point"]),
 )
 
 contract(
@@ -152,6 +221,7 @@ contract(
     post=["all_hex(digits)", "result == hexval(digits)", "0 <= result and result <= 0xFFFF"],
     raises={"LiquidSyntaxError": "not all_hex(digits)"},
     returns=Int,
+    build=_mk_build("_parse_hex_digits", ["digits"]),
 )
 
 contract(
@@ -175,6 +245,7 @@ contract(
     ],
     raises={"LiquidSyntaxError": None},
     returns=TupleOf(Int, Int),
+    build=_mk_build("_decode_hex_char", ["value", "index"]),
 )
 
 contract(
@@ -189,6 +260,7 @@ contract(
     ],
     raises={"LiquidSyntaxError": None},
     returns=TupleOf(Str, Int),
+    build=_mk_build("_decode_escape_sequence", ["value", "index"]),
 )
 
 contract(
@@ -213,4 +285,5 @@ contract(
     post=["result == dec(value)"],   # exactly the denoted string
     raises={"LiquidSyntaxError": None},
     returns=Str,
+    build=_mk_build("unescape", ["value"]),
 )
